@@ -8,6 +8,8 @@ pub mod stdlib;
 mod to_result;
 mod unary_operator;
 pub mod variable;
+#[cfg(simplesl_verif)]
+pub mod verif;
 pub use simplesl_macros::{var, var_type};
 use std::fmt::{Debug, Display};
 pub use {
